@@ -1096,6 +1096,18 @@ def emit_fn(em, info, unit, cur_source, blk, typemap):
     if mm:
         ft.log.append({"rule": "N20.macro_fn", "fn": fnpath, "from": f"macro_rules! {mm.group(1)} {{ .. fn {mm.group(2)} .. }}", "to": "free function after @subst"})
 
+    # ---- site rewrites marked `early`: applied to the repository text before the generic idioms (e.g. a format! whose value matters)
+    for s in subs:
+        if s.name == "rewrite" and "early" in s.args.split()[1:]:
+            a = s.args.split()
+            body = s.text
+            parts = re.split(r"\n\s*=>\s*\n", "\n" + body + "\n", 1)
+            find, rep = parts if len(parts) == 2 else body.split("=>", 1)
+            cnt = 1
+            for x in a[1:]:
+                if x.startswith("count="):
+                    cnt = None if x == "count=any" else int(x[6:])
+            ft.replace_tokpat(a[0], find.strip(), rep.strip(), count=cnt)
     # ---- generic rules
     delete_log_macros(ft)
     for rule, pat, rep in IDIOMS:
@@ -1104,6 +1116,8 @@ def emit_fn(em, info, unit, cur_source, blk, typemap):
     normalize_closure_patterns(ft)
     # ---- declared site rewrites, in order
     for s in subs:
+        if s.name == "rewrite" and "early" in s.args.split()[1:]:
+            continue
         if s.name == "rewrite":
             a = s.args.split()
             rule = a[0] if a else "N?"
